@@ -484,7 +484,7 @@ def _jobs_for(prop, tier):
         return [j for j in jobs_option_below(tier) if j[1][3] == 'combinations'] + jobs_combinations(tier) + jobs_axis0(tier, 'combinations') + jobs_record_below(tier, ('combinations',))
     if prop == 'C03':
         return jobs_c03(tier) + jobs_option_reduce(tier) + jobs_axis(tier, ('reduce',)) + jobs_reduce_nonlocal(tier) + jobs_unmasked_passthrough(('reduce_next',)) + jobs_record_reduce(tier)
-    return {'C02': (lambda t: jobs_c02(t) + jobs_numpy_toregular(t) + jobs_regular_getitem_jagged(t) + jobs_list_asslice(t) + jobs_indexed_widths(t) + jobs_indexed_is_unique(t)), 'C03': jobs_c03, 'C04': (lambda t: jobs_c04(t) + jobs_numpy_toregular(t)), 'C06': (lambda t: jobs_c06(t) + jobs_axis(t, ('sort', 'argsort')) + jobs_numpy_sort(t) + jobs_sort_nonlocal(t) + jobs_option_sort(t) + jobs_option_sort_above(t) + jobs_option_argsort(t) + jobs_string_argsort(t) + jobs_unmasked_passthrough(('sort_next', 'argsort_next'))), 'C08': (lambda t: jobs_c08(t) + jobs_numpy(t) + jobs_numpy_types(t) + jobs_union(t) + jobs_reverse_merge(t) + jobs_record_merge(t) + jobs_list_merge(t) + [j for j in jobs_record_named(t) if j[0] is h_record_mergemany_named] + jobs_merge_union(t) + jobs_union_ops(t)), 'C17': (lambda t: jobs_c17(t) + jobs_record_keys(t) + jobs_record_key_at(t) + jobs_node_form(t) + jobs_numpy_form(t) + jobs_record_form(t) + jobs_node_type(t) + jobs_union_form(t) + jobs_record_depth(t) + jobs_numpy_type(t)), 'C12': (lambda t: [j for j in jobs_c02(t) if j[1][0] in ('BitMaskedArray', 'ByteMaskedArray')] + jobs_numpy(t) + jobs_numpy_astype(t) + [(h_index_alloc, (), 900)] + [(h_axis0, (L_, 'combinations', n_, True), 900) for L_, n_ in ((1, 2), (2, 3), (1, 3), (0, 2))] + [j for j in jobs_numpy_getitem(t) if j[1][3] == 'array']), 'C10': (lambda t: jobs_c10(t) + [j for j in jobs_record_named(t) if j[0] is h_record_field_key] + jobs_project(t) + [j for j in jobs_option_below(t) if j[1][3] in ('getitem_field', 'getitem_fields')] + jobs_record_setitem(t) + jobs_record_key_at(t)), 'C05': jobs_c05, 'C09': jobs_c09}.get(prop, lambda t: [])(tier)
+    return {'C02': (lambda t: jobs_c02(t) + jobs_numpy_toregular(t) + jobs_regular_getitem_jagged(t) + jobs_list_asslice(t) + jobs_indexed_widths(t) + jobs_indexed_is_unique(t) + jobs_union_same_content(t)), 'C03': jobs_c03, 'C04': (lambda t: jobs_c04(t) + jobs_numpy_toregular(t)), 'C06': (lambda t: jobs_c06(t) + jobs_axis(t, ('sort', 'argsort')) + jobs_numpy_sort(t) + jobs_sort_nonlocal(t) + jobs_option_sort(t) + jobs_option_sort_above(t) + jobs_option_argsort(t) + jobs_string_argsort(t) + jobs_unmasked_passthrough(('sort_next', 'argsort_next'))), 'C08': (lambda t: jobs_c08(t) + jobs_numpy(t) + jobs_numpy_types(t) + jobs_union(t) + jobs_reverse_merge(t) + jobs_record_merge(t) + jobs_list_merge(t) + [j for j in jobs_record_named(t) if j[0] is h_record_mergemany_named] + jobs_merge_union(t) + jobs_union_ops(t) + jobs_union_same_content(t)), 'C17': (lambda t: jobs_c17(t) + jobs_record_keys(t) + jobs_record_key_at(t) + jobs_node_form(t) + jobs_numpy_form(t) + jobs_record_form(t) + jobs_node_type(t) + jobs_union_form(t) + jobs_record_depth(t) + jobs_numpy_type(t)), 'C12': (lambda t: [j for j in jobs_c02(t) if j[1][0] in ('BitMaskedArray', 'ByteMaskedArray')] + jobs_numpy(t) + jobs_numpy_astype(t) + [(h_index_alloc, (), 900)] + [(h_axis0, (L_, 'combinations', n_, True), 900) for L_, n_ in ((1, 2), (2, 3), (1, 3), (0, 2))] + [j for j in jobs_numpy_getitem(t) if j[1][3] == 'array']), 'C10': (lambda t: jobs_c10(t) + [j for j in jobs_record_named(t) if j[0] is h_record_field_key] + jobs_project(t) + [j for j in jobs_option_below(t) if j[1][3] in ('getitem_field', 'getitem_fields')] + jobs_record_setitem(t) + jobs_record_key_at(t)), 'C05': jobs_c05, 'C09': jobs_c09}.get(prop, lambda t: [])(tier)
 
 
 # ------------------------------------------------------------------------------------------------ C01: getitem_next of list nodes
@@ -1776,6 +1776,49 @@ def jobs_indexed_widths(tier):
     """C02: concatenation does not depend on the index width / option encoding of an operand (each class first and second, next to a plain one)"""
     A = [('IndexedOptionArray64', (0, 1)), ('IndexedArray64', (0, 0)), ('IndexedOptionArray32', (1, 0, 0)), ('IndexedArray32', (0,)), ('IndexedArrayU32', (0, 0))]
     return [(h_indexed_mergemany, ((a, A[1]),), 1800) for a in A] + [(h_indexed_mergemany, ((A[1], a),), 1800) for a in A if a != A[1]]
+
+
+@guard
+def h_union_same_content(tags, width='64'):
+    """simplify_uniontype of a union whose two contents are the same buffer region (referentially equal - what where(cond, x, x) builds): the
+    two become one, every entry still shows the element its own (tag, index) named - the index entries of the second content are not shifted"""
+    tags = tuple(tags)
+    nc = NodeCtx(['UNI', 'IA', 'IDX', 'CNT', 'UTL', 'KD', 'IDS', 'EA'], [], unwind=max(14, 3 * len(tags) + 12))
+    kk = z3.BitVec('k!', 64)
+    nc.m.assume(nc.lencontent >= 1, nc.lencontent <= 2 ** 20)
+    twin = nc.new_content_in(nc.m.mem, 'content_twin', nc.lencontent, z3.Lambda([kk], kk), const=True)          # another object for the same region
+    nc.m.eng.stubs['vf$slot%d' % nc.slot('19referentially_equalERKSt10shared_ptr')] = lambda eng, fr, ins, st, name, argv: z3.BitVecVal(1, 1)
+    nc.m.eng.stubs['vf$slot%d' % nc.slot('9mergeableERKSt10shared_ptr')] = lambda eng, fr, ins, st, name, argv: z3.BitVecVal(0, 1)
+    this, idx = build_union8_64(nc, tags, [nc.content0, twin], 'node', [nc.lencontent, nc.lencontent], width=width)
+    nc.m.record('ret', {})
+    out = nc.m.call('_ZNK7awkward12UnionArrayOfIa%sE18simplify_uniontypeEbb' % WIDTHS[width][0], [Ptr('ret', 0), this, z3.BitVecVal(1, 1), z3.BitVecVal(0, 1)])
+    obls = [('simplify_uniontype does not raise', out.raised)]
+    want = [Elem(idx[i]) for i in range(len(tags))]
+    rcell = nc.m.cell('ret', 0)
+    for g, res in (nodeh.decode_cases(nc, out.mem, rcell) if rcell is not None else []):
+        if res is None:
+            obls.append(('a result is returned', z3.And(g, z3.Not(out.raised))))
+            continue
+        obls += [(nm, z3.And(g, z3.Not(out.raised), c)) for nm, c in nodeh.compare_value(res, want)]
+
+    def replay(model, ent):
+        ev = lambda t: model.eval(t, model_completion=True).as_signed_long()
+        iv = [ev(x) for x in idx]
+        lc = max([min(ev(nc.lencontent), 40), 1] + [v + 1 for v in iv])
+        if lc > 60:
+            return False, 'content too long to replay', {}
+        vals = [100 + k for k in range(lc)]
+        prog = 'i64 %s dup union8_%s %d %s %s 2 simplify' % (fullnative.ints(vals), width, len(tags), ' '.join(map(str, tags)), ' '.join(map(str, iv)))
+        return akrun_check(prog, [vals[v] for v in iv], 'union (tags %s, index %s) over the same array %s twice, simplified' % (list(tags), iv, vals))
+    return mdischarge(nc.m, 'UnionArray8_%s::simplify_uniontype, two referentially equal contents, tags=%s' % (width, ''.join(map(str, tags))), obls, [], replay=replay,
+                      prefer=[nc.lencontent <= 6], extra=dict(bounds='tags concrete (case split), index entries and content length symbolic; the two contents are distinct objects for one buffer region'))
+
+
+def jobs_union_same_content(tier):
+    q = [((0, 1, 0, 1), '64'), ((1, 1, 0), '32')]
+    if tier != 'quick':
+        q += [((1,), '64'), ((0, 0, 1), 'U32'), ((1, 0, 1, 1, 0), '64')]
+    return [(h_union_same_content, a, 1800) for a in q]
 
 
 def jobs_c08(tier):
